@@ -5,6 +5,7 @@ CONSTANTS
   Chunk = 31457280
   ChunkOverhead = 16
   OpSize = 8
+  WrapOverhead = 0
   UseSize = 32
   RawSizes = {15728640, 31457279, 31457280}
   FileSizes = {0, 1, 31457280, 31457281}
